@@ -145,5 +145,37 @@ fn c08_k_quick_hull_4() { body_hull4(0); }
 #[kani::unwind(8)]
 fn c08_k_graham_hull_4() { body_hull4(1); }
 
+// ---- hull contract on a MENU of literal point sets (bounded; symbolic point sets do not finish, see above) ----
+#[cfg(kani)]
+fn menu_points(which: u8) -> Vec<Coord<i16>> {
+    let c = |x: i16, y: i16| Coord { x, y };
+    match which {
+        0 => vec![c(4, 0), c(2, 1), c(3, 4), c(0, 2)],                          // first point is the lexicographically greatest
+        1 => vec![c(0, 0), c(2, 0), c(4, 0), c(4, 4), c(0, 4)],                 // collinear point on the edge after the start vertex
+        2 => vec![c(0, 0), c(4, 0), c(4, 4), c(0, 4), c(2, 2), c(0, 0), c(4, 4)], // interior point and duplicates
+        3 => vec![c(0, 0), c(1, 3), c(2, 4), c(3, 3), c(4, 0), c(2, -1), c(1, 0), c(3, 0)],
+        _ => vec![c(3, 1), c(0, 0), c(1, 1), c(2, 2), c(3, 3), c(0, 3)],        // collinear diagonal
+    }
+}
+#[cfg(kani)]
+fn body_hull_menu(which: u8, graham: bool) {
+    let orig = menu_points(which);
+    let mut work = menu_points(which);
+    let h = if graham { graham::graham_hull(&mut work, false) } else { qhull::quick_hull(&mut work) };
+    assert!(is_strict_hull_of(&h, &orig));
+}
+#[cfg(kani)] #[kani::proof] #[kani::unwind(12)]
+fn c08_k_quick_hull_menu_0() { body_hull_menu(0, false); }
+#[cfg(kani)] #[kani::proof] #[kani::unwind(12)]
+fn c08_k_quick_hull_menu_1() { body_hull_menu(1, false); }
+#[cfg(kani)] #[kani::proof] #[kani::unwind(12)]
+fn c08_k_quick_hull_menu_2() { body_hull_menu(2, false); }
+#[cfg(kani)] #[kani::proof] #[kani::unwind(12)]
+fn c08_k_graham_hull_menu_0() { body_hull_menu(0, true); }
+#[cfg(kani)] #[kani::proof] #[kani::unwind(12)]
+fn c08_k_graham_hull_menu_1() { body_hull_menu(1, true); }
+#[cfg(kani)] #[kani::proof] #[kani::unwind(12)]
+fn c08_k_graham_hull_menu_4() { body_hull_menu(4, true); }
+
 #[cfg(kani)]
 include!(concat!(env!("GEO_VERIF_DIR"), "/.work/playback/pb_c08.rs"));
